@@ -1065,6 +1065,11 @@ pub fn eof_mode_case(c: &BuiltCase, mode: u8, tag: &str, id: &str) -> CaseResult
     Ok(o)
 }
 
+/// C25 on validated EOF containers: no panic / abort, instruction pointer inside the section, stack bound.
+pub fn c25_eof_case(c: &BuiltCase) -> CaseResult {
+    eof_mode_case(c, 0, "C25", "C25")
+}
+
 pub fn c08_eof_case(c: &BuiltCase) -> CaseResult {
     eof_mode_case(c, MODE_CONSERVATION, "C08", "C08")
 }
